@@ -51,13 +51,19 @@ func (d *detIndexer) order(items []interface{}) []interface{} {
 	return items
 }
 
-func (d *detIndexer) List() []interface{} { return d.order(d.Indexer.List()) }
+func (d *detIndexer) List() []interface{} {
+	items := d.order(d.Indexer.List())
+	d.sim.observeCacheList(d.kind, items)
+	return items
+}
 func (d *detIndexer) Index(indexName string, obj interface{}) ([]interface{}, error) {
 	items, err := d.Indexer.Index(indexName, obj)
 	if err != nil {
 		return nil, err
 	}
-	return d.order(items), nil
+	items = d.order(items)
+	d.sim.observeCacheList(d.kind, items)
+	return items, nil
 }
 func (d *detIndexer) ByIndex(indexName, indexedValue string) ([]interface{}, error) {
 	items, err := d.Indexer.ByIndex(indexName, indexedValue)
@@ -70,6 +76,9 @@ func (d *detIndexer) GetByKey(k string) (interface{}, bool, error) {
 	if err, ok := d.getErr[k]; ok {
 		delete(d.getErr, k)
 		d.sim.count("fault.lister." + d.kind.String())
+		if a := d.sim.current; a != nil && a.rec != nil {
+			a.rec.ListerFaults = append(a.rec.ListerFaults, k)
+		}
 		return nil, false, err
 	}
 	item, ok, err := d.Indexer.GetByKey(k)
@@ -106,14 +115,14 @@ func (i *informerStub) AddEventHandlerWithResyncPeriod(h cache.ResourceEventHand
 	return i.AddEventHandler(h)
 }
 func (i *informerStub) RemoveEventHandler(cache.ResourceEventHandlerRegistration) error { return nil }
-func (i *informerStub) GetStore() cache.Store                                         { return i.indexer }
-func (i *informerStub) GetController() cache.Controller                               { return nil }
-func (i *informerStub) Run(stopCh <-chan struct{})                                    { panic("informer Run is not simulated") }
-func (i *informerStub) HasSynced() bool                                               { return i.synced }
-func (i *informerStub) LastSyncResourceVersion() string                               { return "" }
-func (i *informerStub) SetWatchErrorHandler(cache.WatchErrorHandler) error            { return nil }
-func (i *informerStub) SetTransform(cache.TransformFunc) error                        { return nil }
-func (i *informerStub) IsStopped() bool                                               { return false }
+func (i *informerStub) GetStore() cache.Store                                           { return i.indexer }
+func (i *informerStub) GetController() cache.Controller                                 { return nil }
+func (i *informerStub) Run(stopCh <-chan struct{})                                      { panic("informer Run is not simulated") }
+func (i *informerStub) HasSynced() bool                                                 { return i.synced }
+func (i *informerStub) LastSyncResourceVersion() string                                 { return "" }
+func (i *informerStub) SetWatchErrorHandler(cache.WatchErrorHandler) error              { return nil }
+func (i *informerStub) SetTransform(cache.TransformFunc) error                          { return nil }
+func (i *informerStub) IsStopped() bool                                                 { return false }
 func (i *informerStub) AddIndexers(indexers cache.Indexers) error {
 	return i.indexer.AddIndexers(indexers)
 }
@@ -123,7 +132,7 @@ func (i *informerStub) GetIndexer() cache.Indexer { return i.indexer }
 type podInformer struct{ *informerStub }
 
 func (p podInformer) Informer() cache.SharedIndexInformer { return p.informerStub }
-func (p podInformer) Lister() corelisters.PodLister      { return corelisters.NewPodLister(p.indexer) }
+func (p podInformer) Lister() corelisters.PodLister       { return corelisters.NewPodLister(p.indexer) }
 
 var _ coreinformers.PodInformer = podInformer{}
 
